@@ -489,6 +489,14 @@ func dischargeBounds(c *Ctx, s partialSite) (bool, string) {
 			}
 		}
 	}
+	// x[i+k] behind a test that i+k2 < len(x) with k <= k2, i non-negative (a loop counter from 0)
+	if len(idx) == 1 {
+		if _, isSlice := s.Instr.(*ssa.Slice); !isSlice {
+			if how, ok := indexUnderLenGuard(fn, s.Instr, x, idx[0]); ok {
+				return true, how
+			}
+		}
+	}
 	// x[lo : K+n (: K+n)] behind a test that len(x)-K2 >= n (K2 >= K >= lo, all arithmetic in int)
 	if sl, ok := s.Instr.(*ssa.Slice); ok && sl.High != nil {
 		if how, ok := offsetSliceUnderGuard(fn, sl); ok {
@@ -986,6 +994,74 @@ func offsetSliceUnderGuard(fn *ssa.Function, sl *ssa.Slice) (string, bool) {
 	})
 	if pass, _ := mustPass(fn, sl, g); pass {
 		return fmt.Sprintf("behind a test that len(x)-%d >= n for the window x[%d:%d+n]", K, lo, K), true
+	}
+	return "", false
+}
+
+// splitConstAdd: v = base + k with a constant k >= 0 (k = 0 when v is not such a sum).
+func splitConstAdd(v ssa.Value) (base ssa.Value, k int64) {
+	if bo, ok := v.(*ssa.BinOp); ok && bo.Op == token.ADD {
+		if kk, isC := constInt(bo.Y); isC && kk >= 0 {
+			return bo.X, kk
+		}
+		if kk, isC := constInt(bo.X); isC && kk >= 0 {
+			return bo.Y, kk
+		}
+	}
+	return v, 0
+}
+
+// nonNegCounter: v is a constant >= 0, or a loop counter that starts at a constant >= 0 and only
+// grows by positive constants.
+func nonNegCounter(v ssa.Value, seen map[ssa.Value]bool) bool {
+	if seen[v] {
+		return true
+	}
+	seen[v] = true
+	if k, ok := constInt(v); ok {
+		return k >= 0
+	}
+	switch x := v.(type) {
+	case *ssa.Phi:
+		for _, e := range x.Edges {
+			if !nonNegCounter(e, seen) {
+				return false
+			}
+		}
+		return true
+	case *ssa.BinOp:
+		if x.Op == token.ADD {
+			b, k := splitConstAdd(x)
+			return k >= 0 && b != ssa.Value(x) && nonNegCounter(b, seen)
+		}
+	}
+	return false
+}
+
+// indexUnderLenGuard: x[i+k] is reached only over a branch establishing i+k2 < len(x) with k <= k2,
+// and i is a non-negative counter.
+func indexUnderLenGuard(fn *ssa.Function, at ssa.Instruction, x, idx ssa.Value) (string, bool) {
+	ib, ik := splitConstAdd(idx)
+	if !nonNegCounter(ib, map[ssa.Value]bool{}) {
+		return "", false
+	}
+	g := GCmp(func(a ssa.Value, op token.Token, b ssa.Value) bool {
+		if isLenOf(b, x) {
+			gb, gk := splitConstAdd(a)
+			if gb == ib && gk >= ik {
+				return op == token.LSS
+			}
+		}
+		if isLenOf(a, x) {
+			gb, gk := splitConstAdd(b)
+			if gb == ib && gk >= ik {
+				return op == token.GTR
+			}
+		}
+		return false
+	})
+	if pass, _ := mustPass(fn, at, g); pass {
+		return fmt.Sprintf("index i+%d behind a test that i+k < len(x) with k >= %d, i a non-negative counter", ik, ik), true
 	}
 	return "", false
 }
